@@ -20,6 +20,8 @@ var branchSets = [][]string{
 	{"`", ".", "+", ":"},
 	{"L", "", "M", "|||"},
 	{"└", "·", "├", "│──"},
+	{"", "L", "M", "|||"}, // the strings of set 5 cut differently: the same text when concatenated
+	{"L", "M", "", "|||"},
 }
 
 var extSets = [][]string{nil, {".go"}, {".txt", ".md"}, {"Makefile"}, {"go", ".go"}, {""}, {".tar.gz", ".gz"}, {"Makefile", "file"}, {".GO", ".go", ".txt"}, {".go", ".txt", ".go"}, {"[1].txt", ".c?"}, {"*", ".cc"}}
@@ -30,7 +32,7 @@ func genOp(c *Ctx, massive bool) Op {
 	switch c.Pick(5, 2, 2, 1, 2, 3, 3, 2, 1) {
 	case 0:
 		op.Kind = "output"
-		op.Branch = branchSets[c.Pick(4, 1, 1, 1, 1, 1, 1)]
+		op.Branch = branchSets[c.Pick(4, 1, 1, 1, 1, 1, 1, 1, 1)]
 		if op.Branch != nil && c.Chance(1, 5) {
 			op.BranchOnly = []string{"last", "mid"}[c.Draw(2)]
 		}
@@ -48,7 +50,7 @@ func genOp(c *Ctx, massive bool) Op {
 		}
 	case 5:
 		op.Kind = "walk"
-		op.Branch = branchSets[c.Pick(4, 1, 1, 1, 1, 1, 1)]
+		op.Branch = branchSets[c.Pick(4, 1, 1, 1, 1, 1, 1, 1, 1)]
 		if op.Branch != nil && c.Chance(1, 5) {
 			op.BranchOnly = []string{"last", "mid"}[c.Draw(2)]
 		}
@@ -379,6 +381,8 @@ func readerPlanFor(c *Ctx) ReaderPlan {
 	rp.ChunkSeed = uint64(c.Draw(1 << 16))
 	rp.WithLen = rp.ChunkSeed%4 == 0
 	rp.Seekable = rp.ChunkSeed%8 == 1
+	rp.WithClose = rp.ChunkSeed%8 == 2
+	rp.WriterTo = rp.ChunkSeed%8 == 3
 	return rp
 }
 
@@ -594,12 +598,13 @@ func genFaultPlan(c *Ctx, op Op, docLen int, allowNone bool) *faultPlan {
 		switch c.Pick(6, 1, 1, 3, 3, 2, 2) {
 		case 0:
 			f.ctx = CtxPlan{Mode: "cancel", AtStep: c.Draw(420), Custom: c.Draw(4) == 0}
+			f.ctx.Cause = !f.ctx.Custom && c.Draw(4) == 0
 			f.kinds = append(f.kinds, "cancel")
 		case 1:
 			f.ctx = CtxPlan{Mode: "pre", Custom: c.Draw(4) == 0}
 			f.kinds = append(f.kinds, "precancelled")
 		case 2:
-			f.ctx = CtxPlan{Mode: "deadline", AtStep: c.Draw(420)}
+			f.ctx = CtxPlan{Mode: "deadline", AtStep: c.Draw(420), Cause: c.Draw(4) == 0}
 			f.kinds = append(f.kinds, "deadline")
 		case 3:
 			if !op.FromRoot {
@@ -971,6 +976,13 @@ func caseC12(c *Ctx) {
 		defer removeJail(j)
 	}
 	env := &Env{Doc: doc, Reader: readerPlanFor(c), Writer: noWriterFault, Cb: noCbFault, Disk: d, MaxSteps: 60000 + 4*len(doc)}
+	preCancelled := massive && c.Chance(1, 10)
+	if preCancelled {
+		// an option value like any other: WithMassive with a context that is cancelled already
+		env.Ctx = CtxPlan{Mode: "pre"}
+		c.Scenario["context"] = "cancelled before the call"
+		c.st.Count("massive-with-cancelled-context")
+	}
 	if len(doc) > 4096 && env.Reader.MaxChunk > 0 && env.Reader.MaxChunk < 512 {
 		env.Reader.MaxChunk = 512 + env.Reader.MaxChunk // keep the step count of very long lines reasonable
 	}
@@ -997,7 +1009,7 @@ func caseC12(c *Ctx) {
 	if out.Hang || out.StepCap {
 		c.Failf("C12:hang:"+mode+":"+leakOrCallerSite(out)+":"+inputClass, "the call did not return (stepcap=%v)\n%s", out.StepCap, hangDetail(out))
 	}
-	if class == "empty" || class == "blank-only" {
+	if (class == "empty" || class == "blank-only") && !preCancelled {
 		if out.Err != nil {
 			c.Failf("C12:empty-input-error:"+mode+":"+op.Kind, "empty or blank-only input must give nil, got %q", out.Err)
 		}
@@ -1232,7 +1244,7 @@ func c11StalledWriter(c *Ctx, s *massiveScenario, mk func(*DiskPlan) *Env) {
 	env.Reader = readerPlanFor(c)
 	env.Writer = WriterPlan{FailAt: c.Draw(6), Stall: true}
 	mode := []string{"cancel", "deadline"}[c.Draw(2)]
-	env.Ctx = CtxPlan{Mode: mode, AtStep: 30 + c.Draw(500)}
+	env.Ctx = CtxPlan{Mode: mode, AtStep: 30 + c.Draw(500), Cause: c.Draw(3) == 0}
 	env.MaxSteps = 40000 + 4*len(s.doc)
 	c.Scenario["faults"] = fmt.Sprintf("write #%d never returns, context %s at step %d", env.Writer.FailAt, mode, env.Ctx.AtStep)
 	c.st.Count("stalled-writer")
